@@ -182,6 +182,8 @@ fn to_rc(v: &V) -> PathAttribute {
         V::Communities(l) => {
             let PathAttribute::StandardCommunities(mut scl) = empty_of(8) else { panic!("no empty list") };
             for c in l { scl.add_community((*c).into()); }
+            // (tie coverage) fmap hands out the communities that were added, in order
+            assert!(scl.clone().fmap(|c| c.to_u32()) == *l, "StandardCommunitiesList::fmap");
             scl.into()
         }
         V::Originator(a) => OriginatorId(ip(*a)).into(),
@@ -190,17 +192,33 @@ fn to_rc(v: &V) -> PathAttribute {
             let mut b = if l.len() * 4 > 255 { vec![0x90, 10] } else { vec![0x80, 10] };
             if l.len() * 4 > 255 { b.extend(((l.len() * 4) as u16).to_be_bytes()); } else { b.push((l.len() * 4) as u8); }
             for x in l { b.extend(x.to_be_bytes()); }
-            first_attr(&b, true).unwrap().unwrap()
+            let pa = first_attr(&b, true).unwrap().unwrap();
+            if let PathAttribute::ClusterList(c) = &pa { assert!(c.len() == l.len() && c.len() == c.cluster_ids().len(), "ClusterIds::len"); }
+            pa
         }
-        V::ExtComm(l) => ExtendedCommunitiesList::new(l.iter().map(|r| <[u8; 8]>::try_from(&r[..]).unwrap().into()).collect()).into(),
+        V::ExtComm(l) => {
+            // (tie coverage) all but the last through `new`, the last through `add_community`; `fmap` hands them out
+            let all: Vec<routecore::bgp::communities::ExtendedCommunity> = l.iter().map(|r| <[u8; 8]>::try_from(&r[..]).unwrap().into()).collect();
+            let mut x = ExtendedCommunitiesList::new(all[..all.len().saturating_sub(1)].to_vec());
+            if let Some(c) = all.last() { x.add_community(*c); }
+            assert!(x.clone().fmap(|c| c) == all, "ExtendedCommunitiesList::fmap / add_community");
+            x.into()
+        }
         V::As4Path(h) => As4Path(build(h)).into(),
         V::As4Aggregator(a, b) => As4Aggregator(AggregatorInfo::new(Asn::from_u32(*a), ip(*b))).into(),
         V::Connector(a) => Connector(ip(*a)).into(),
         V::AsPathLimit(u, a) => AsPathLimitInfo::new(*u, Asn::from_u32(*a)).into(),
-        V::Ipv6ExtComm(l) => Ipv6ExtendedCommunitiesList::new(l.iter().map(|r| <[u8; 20]>::try_from(&r[..]).unwrap().into()).collect()).into(),
+        V::Ipv6ExtComm(l) => {
+            let all: Vec<routecore::bgp::communities::Ipv6ExtendedCommunity> = l.iter().map(|r| <[u8; 20]>::try_from(&r[..]).unwrap().into()).collect();
+            let mut x = Ipv6ExtendedCommunitiesList::new(all[..all.len().saturating_sub(1)].to_vec());
+            if let Some(c) = all.last() { x.add_community(*c); }
+            assert!(x.clone().fmap(|c| c) == all, "Ipv6ExtendedCommunitiesList::fmap / add_community");
+            x.into()
+        }
         V::LargeComm(l) => {
             let PathAttribute::LargeCommunities(mut lc) = empty_of(32) else { panic!("no empty list") };
             for r in l { lc.add_community(<[u8; 12]>::try_from(&r[..]).unwrap().into()); }
+            assert!(lc.clone().fmap(|c| c.to_raw().to_vec()) == *l, "LargeCommunitiesList::fmap");
             lc.into()
         }
         V::Otc(a) => Otc(Asn::from_u32(*a)).into(),
@@ -671,6 +689,11 @@ impl Prop for C04 {
                 let pa = to_rc(&val);
                 let bytes = compose(&pa);
                 let len = pa.compose_len();
+                // (tie coverage) PathAttribute::type_code() / default_flags(): what the value says about itself
+                // is what its encoding carries (the Extended Length bit aside, which depends on the size)
+                if bytes.len() >= 2 && (pa.type_code() != bytes[1] || u8::from(pa.default_flags()) != bytes[0] & !0x10) {
+                    return format!("type_code()={} default_flags()={:#04x} but the encoding starts {}", pa.type_code(), u8::from(pa.default_flags()), hex(&bytes[..2]));
+                }
                 let (dec, same) = {
                     let v = bytes.clone();
                     let mut it = PathAttributes::new(Parser::from_ref(&v), PduParseInfo::modern());
